@@ -511,4 +511,35 @@ theorem dispatch_accepted_eq_none (q : Quirks) (hq : q.symFnIgnoresFirst = false
     {b : Dict Arg} (hb : bind c.params c.pos c.kw = .ok b) : dispatch q c = dispatch Quirks.none c :=
   dispatch_quirk_eq q c hwf hb (fun h => by rw [hq] at h; cases h)
 
+/-! ### the if/else frame: one condition object written twice -/
+
+/-- **C12_framed_history.** The SAME condition object written in both branches of an if/else
+(`or_(and_(c, A), and_(not_(c), B))`, an `ElseIf`), evaluated in a sequence of worlds: on every accepted call outside the
+triggers of the quirks that are on, every evaluation invokes the callable once per candidate binding (not once per
+occurrence) and selects exactly the candidates for which "if the concrete call holds then A else B". -/
+theorem C12_framed_history (q : Quirks) (knobs : Knobs) (f : Frame) (x : Experiment)
+    (hwf : x.call.WF) (b : Dict Arg) (hb : bind x.call.params x.call.pos x.call.kw = .ok b)
+    (h1 : q.symFnIgnoresFirst = true → trigPositional x.call = false)
+    (h2 : q.childVarsIndependent = true → trigShared x = false) (before ws : List World) :
+    runFramedHistory q knobs f x before ws = specFramedHistory f x ws := by
+  unfold runFramedHistory specFramedHistory
+  rw [C12_history q knobs x hwf b hb h1 h2 before ws,
+    C12_history q knobs { x with neg := !x.neg } hwf b hb h1 h2 before ws]
+
+/-- what the framed observation says: the log is the log of ONE occurrence, and a row is selected iff it is a row of
+the call and the then-guard holds, or a row of the negated call and the else-guard holds -/
+theorem Obs.framed_spec (f : Frame) (pos negd : Obs) :
+    (Obs.framed f pos negd).log = pos.log ∧
+    ∀ r, r ∈ (Obs.framed f pos negd).rows ↔
+      (f.thenHolds = true ∧ r ∈ pos.rows) ∨ (f.elseHolds = true ∧ r ∈ negd.rows) := by
+  refine ⟨rfl, fun r => ?_⟩
+  cases f with
+  | mk t e => cases t <;> cases e <;> simp [Obs.framed]
+
+/-- non-vacuity: `exHistory` in the frame "then: selected, else: selected" - both evaluations select every candidate,
+with one invocation per candidate -/
+example : runFramedHistory Quirks.today [] ⟨true, true⟩ exHistory [] [id, fun o => o + 1]
+    = [.symbolic (.ok ⟨[[101], [102], [103]], [[1], [3], [2]]⟩), .symbolic (.ok ⟨[[102], [103], [104]], [[2], [1], [3]]⟩)] := by
+  decide
+
 end KrroodVerif.Pred
